@@ -346,19 +346,25 @@ def verify_function(qualname, contract, schema, timeout_ms=10000, contracts=None
     if frag is not None:
         # the contract is on a loop body: the statements of the `for` whose iterable has the given source text, executed
         # for an arbitrary element (the loop variable is a contract parameter)
-        if "iter" in frag:
-            hits = [n for n in ast.walk(fi.node) if isinstance(n, ast.For) and ast.unparse(n.iter).replace('"', "'") == frag["iter"].replace('"', "'")]
-        else:
-            # the loop is identified by what its body does; its iterable is then an OBJECT of the contract (`iter_range`)
-            hits = [n for n in ast.walk(fi.node) if isinstance(n, ast.For)]
+        loops = [n for n in ast.walk(fi.node) if isinstance(n, ast.For)]
+        by_iter = [n for n in loops if "iter" in frag and ast.unparse(n.iter).replace('"', "'") == frag["iter"].replace('"', "'")]
+        by_body = [n for n in loops if frag.get("body_contains") and frag["body_contains"] in "\n".join(ast.unparse(b) for b in n.body)]
+        by_body = [n for n in by_body if not any(m is not n and m in list(ast.walk(n)) for m in by_body)]  # innermost
+        both = [n for n in by_iter if n in by_body]
+        # the loop is named by the text of its iterable and / or by a text its body contains; either may have been rewritten, so the
+        # two are combined: both agree > the iterable text alone is unambiguous > the body text alone is unambiguous
+        if "iter" not in frag:
             frag = dict(frag, iter="<any>")
-        if frag.get("body_contains"):
-            # several loops over the same iterable: the one whose body mentions the given text
-            hits = [n for n in hits if frag["body_contains"] in "\n".join(ast.unparse(b) for b in n.body)]
-            if not hits:
-                # the iterable's source text may have been rewritten: fall back to the (unique) loop whose body mentions the text
-                hits = [n for n in ast.walk(fi.node) if isinstance(n, ast.For) and frag["body_contains"] in "\n".join(ast.unparse(b) for b in n.body)]
-                hits = [n for n in hits if not any(m is not n and m in list(ast.walk(n)) for m in hits)]  # innermost
+        if both:
+            hits = both
+        elif frag.get("body_contains") and len(by_iter) == 1:
+            hits = by_iter
+        elif frag.get("body_contains") and len(by_body) == 1:
+            hits = by_body
+        elif not frag.get("body_contains"):
+            hits = by_iter
+        else:
+            hits = []
         if len(hits) != 1:
             raise Unsupported("fragment: %d loops over %s in %s" % (len(hits), frag["iter"], qualname))
         body_stmts = hits[0].body
